@@ -95,6 +95,38 @@ fn align_multiline_simple<'a>(arena: &'a Arena<'a>, text: &'a str) -> ArenaDoc<'
     doc.hang(1)
 }
 
+#[cfg(feature = "verif-hooks")]
+pub mod verif_hooks {
+    use pretty::Arena;
+    use typst_syntax::SyntaxNode;
+
+    use crate::pretty::ArenaDoc;
+
+    pub fn comment<'a>(arena: &'a Arena<'a>, node: &'a SyntaxNode) -> ArenaDoc<'a> {
+        super::comment(arena, node)
+    }
+
+    pub fn block_comment<'a>(arena: &'a Arena<'a>, node: &'a SyntaxNode) -> ArenaDoc<'a> {
+        super::block_comment(arena, node)
+    }
+
+    pub fn comment_style_is_bullet(text: &str) -> bool {
+        matches!(super::get_comment_style(text), super::CommentStyle::Bullet)
+    }
+
+    pub fn get_follow_leading(text: &str) -> Option<usize> {
+        super::get_follow_leading(text)
+    }
+
+    pub fn align_multiline<'a>(arena: &'a Arena<'a>, text: &'a str) -> ArenaDoc<'a> {
+        super::align_multiline(arena, text)
+    }
+
+    pub fn align_multiline_simple<'a>(arena: &'a Arena<'a>, text: &'a str) -> ArenaDoc<'a> {
+        super::align_multiline_simple(arena, text)
+    }
+}
+
 #[cfg(test)]
 mod tests {
     use pretty::{Arena, DocAllocator};
